@@ -141,7 +141,10 @@ def run(run, thorough):
         tree += victim_nodes('/s/%d/same' % i, k, 's%d' % i)
         victims.append(('/s/%d/same' % i, k))
         steps.append({'cmd': 'put', 'argv': ['--', '/s/%d/same' % i], 'now': [2024, 1, 1, 0, i // 60, i % 60, 0],
-                      'randints': [7, 7, 8] if i >= 100 else []})     # the same random suffix twice: a collision on the random tail too
+                      'randints': ([7, 7, 8] if i < 102 else [9, 9, 12]) if i >= 100 else []})     # the same random suffix twice: a collision on the random tail too
+    # a payload without .trashinfo sits on a name of the random tail (same_9): it must be probed and skipped there as well
+    tree += [['d', '/home/u/.local/share/Trash/files/same_9', 0o755], ['f', '/home/u/.local/share/Trash/files/same_9/left', 'left over'],
+             ['d', '/home/u/.local/share/Trash/info', 0o700]]
     scn = {'tree': tree, 'mounts': [], 'cwd': '/', 'uid': 0, 'env': {'HOME': '/home/u', 'TRASH_VOLUMES': '/'}, 'steps': steps}
     out = engine.run_all(run, 'sequential', [scn])
     for s, res in out:
